@@ -103,6 +103,25 @@ func main() {
 		}
 		jb, _ := json.Marshal(r.Journal)
 		fmt.Printf("exit=%d stage=%d budget=%d wall=%v\nstdout(%d)=%q\nstderr(%d)=%q\njournal=%s\n", r.Exit, r.Stage, r.Budget, time.Since(t0), len(r.Stdout), clip(r.Stdout), len(r.Stderr), clip(r.Stderr), jb)
+	case "gen":
+		// crdsim gen <id> <tier> <from> <to>: print generated cases (debugging)
+		st := harness.NewStats()
+		p := propertyByID(os.Args[2], st)
+		e, err := harness.Build(repo, verif)
+		if err != nil {
+			die(err)
+		}
+		defer e.Close()
+		if err := p.Prepare(e, os.Args[3], seedFromEnv()); err != nil {
+			die(err)
+		}
+		from, _ := strconv.Atoi(os.Args[4])
+		to, _ := strconv.Atoi(os.Args[5])
+		for i := from; i < to && i < p.Runs(os.Args[3]); i++ {
+			c := p.Generate(seedFromEnv(), i)
+			b, _ := json.Marshal(c)
+			fmt.Println(string(b))
+		}
 	case "instrument-report":
 		e, err := harness.Build(repo, verif)
 		if err != nil {
